@@ -677,7 +677,7 @@ def nary(op, w, xs):
         negs = [x for x in rest if x[0] == "neg"]
         if negs and len(rest) == 2:
             n = negs[0]
-            o = [x for x in rest if x is not n][0]
+            o = rest[1] if rest[0] is n else rest[0]
             return sub(o, n[2])
     if not rest:
         ident = {"and": mask(w), "or": 0, "xor": 0, "add": 0, "mul": 1}[op]
@@ -982,7 +982,8 @@ def eval_farith(o, a, b, w):
 
 FP_OPS = {"fadd", "fsub", "fmul", "fdiv", "call:llvm.sqrt", "call:llvm.fma", "call:llvm.fmuladd",
           "call:llvm.trunc", "call:llvm.floor", "call:llvm.ceil", "call:llvm.round", "call:llvm.roundeven",
-          "call:llvm.rint", "sitofp", "uitofp", "fptosi", "fptoui", "fpext", "fptrunc", "x86.cvt", "x86.scalef"}
+          "call:llvm.rint", "sitofp", "uitofp", "fptosi", "fptoui", "fpext", "fptrunc", "x86.cvt", "x86.scalef",
+          "x86.reduce", "x86.rndscale"}
 
 
 def has_fp(t):
@@ -1045,6 +1046,10 @@ def _ev_fp(t, env, memo):
         return fpeval.convert(ev(t[2], env, memo), t[2][1], w, rm)
     if o == "x86.scalef":
         return fpeval.x86_scalef(ev(t[2], env, memo), ev(t[3], env, memo), w, rm)
+    if o == "x86.reduce":
+        return fpeval.x86_reduce(ev(t[2], env, memo), t[3], w, rm)
+    if o == "x86.rndscale":
+        return fpeval.x86_rndscale(ev(t[2], env, memo), t[3], w, rm)
     if o == "x86.cvt":
         # (x, signed, how)  how in trunc / rint
         x = t[2]
